@@ -3,6 +3,7 @@
   Member results are arbitrary data; the hash function is a parameter.
 -/
 import Model.Archive
+import Proofs.Csv
 
 namespace Props.C09
 open Model.Archive
@@ -99,6 +100,37 @@ theorem c18_abort (H : Content ν ε → δ) (results : List (MemberResult ν ε
   intro out
   have := gen results 0 [] (by omega) (by omega)
   simp [out, serialRun, this]
+
+/-! what `Content.csv rows` stands for on disk -/
+
+/-- `csv.writer(f)` / `csv.reader(f)` with no arguments -/
+def csvDefault : Model.Csv.Dialect := ⟨',', '"', 131072⟩
+
+/-- the bytes of data.csv / unmatched.csv: `csv.writer(f).writerow` per line, default dialect and
+    line terminator, file opened in text mode -/
+def csvText (rows : List Rec) : List Char := Model.Csv.renderCRLF csvDefault (rows.map (·.map String.toList))
+
+/-- **data.csv and unmatched.csv say which lines were kept**: read back with `csv.reader` over a
+    text-mode file (as `ResultSerializer` loads them and as the next member of a
+    `source-mode: preceding` chain reads them) they give exactly the lines the member held in
+    memory — every cell, in order — whatever the cells contain (no carriage return) -/
+theorem c09_csv_content (rows : List Rec)
+    (h : ∀ r ∈ rows, ∀ c ∈ r, '\r' ∉ c.toList ∧ c.toList.length ≤ csvDefault.limit) :
+    (Model.Csv.read csvDefault (csvText rows)).map (·.map (·.map String.ofList)) = some rows := by
+  unfold csvText
+  rw [Proofs.Csv.read_renderCRLF csvDefault ⟨by decide, by decide, by decide, by decide, by decide⟩]
+  · simp [Function.comp_def]
+  · intro r hr c hc
+    simp only [List.mem_map] at hr
+    obtain ⟨r0, hr0, e⟩ := hr
+    subst e
+    simp only [List.mem_map] at hc
+    obtain ⟨c0, hc0, e⟩ := hc
+    subst e
+    exact h r0 hr0 c0 hc0
+
+example : (Model.Csv.read csvDefault (csvText [["he said \"hi\"", "a,b"], ["line\nbreak", ""]])).map (·.map (·.map String.ofList))
+    = some [["he said \"hi\"", "a,b"], ["line\nbreak", ""]] := by decide
 
 /-! Non-vacuity (variables are a number, errors are line numbers, the "hash" is the constructor tag) -/
 def tagH : Content Nat Nat → Nat
